@@ -150,6 +150,10 @@ func runOracle(mode string, c *Case) CaseResult {
 		return oraclePerm(c)
 	case "wf":
 		return oracleWF(c)
+	case "hints":
+		return oracleHints(c)
+	case "dist":
+		return oracleDist(c)
 	}
 	fatal(fmt.Errorf("unknown oracle mode %q", mode))
 	return CaseResult{}
